@@ -35,10 +35,10 @@ def lattice_loops(ctx, rnd):
 
 def grid_regions(ctx, rnd):
     q = ctx.quick()
-    fams = ["rect", "face", "hole1", "hole2", "island", "facehole", "stair", "ell", "shells2"]
+    fams = ["rect", "face", "hole1", "hole2", "island", "facehole", "stair", "ell", "shells2", "touch"]
     # (G, families, faces, steps, prove local rules)
     if q:
-        plan = [(3, fams, 3, [1, 3], True), (4, ["rect", "hole1", "hole2", "stair", "ell", "face", "shells2"], 2, [1, 6], False),
+        plan = [(3, fams, 3, [1, 3], True), (4, ["rect", "hole1", "hole2", "stair", "ell", "face", "shells2", "touch"], 2, [1, 6], False),
                 (5, ["rect", "hole1", "face"], 1, [1], False)]
     else:
         plan = [(2, fams, 6, [1, 2, 4], True), (3, fams, 6, [1, 3, 8], True), (3, fams, 6, [1, 2], True),
